@@ -15,7 +15,8 @@ CHECKS = {
             {"pkg": "cli_v2", "entries": ["VerifC14Diff"], "params": {"N": 1, "PRECISION": 1, "FORMATS": 1, "MODES": 1, "DOCS": 3}, "extra": ["-solver", "cvc5"]},
             {"pkg": "cli_v2", "entries": ["VerifC14Patch", "VerifC14Errors", "VerifC14Translate"], "params": {"N": 2}},
             {"pkg": "cli_v2", "entries": ["VerifC14SetKeys", "VerifC14GitDriver", "VerifC14Yaml"], "params": {"N": 2, "KN": 1, "KM": 1}},
-            {"pkg": "cli_root", "entries": ["VerifC14Diff", "VerifC14Patch", "VerifC14Errors", "VerifC14DiffV1", "VerifC14PatchV1"], "params": {"N": 1}},
+            {"pkg": "cli_root", "entries": ["VerifC14Diff", "VerifC14DiffV1"], "params": {"N": 1, "COLOR": 1}},
+            {"pkg": "cli_root", "entries": ["VerifC14Patch", "VerifC14Errors", "VerifC14PatchV1"], "params": {"N": 1}},
         ],
         "thorough": [
             {"pkg": "cli_v2", "entries": ["VerifC14Diff"], "params": {"N": 3, "COLOR": 1}},
@@ -23,7 +24,8 @@ CHECKS = {
             {"pkg": "cli_v2", "entries": ["VerifC14Patch", "VerifC14Errors", "VerifC14Translate"], "params": {"N": 3}},
             {"pkg": "cli_v2", "entries": ["VerifC14SetKeys", "VerifC14GitDriver"], "params": {"N": 2, "KN": 2, "KM": 1}},
             {"pkg": "cli_root", "entries": ["VerifC14SetKeys", "VerifC14GitDriver", "VerifC14Yaml"], "params": {"N": 2, "KN": 1, "KM": 1}},
-            {"pkg": "cli_root", "entries": ["VerifC14Diff", "VerifC14Patch", "VerifC14Errors", "VerifC14Translate", "VerifC14DiffV1", "VerifC14PatchV1"], "params": {"N": 2}},
+            {"pkg": "cli_root", "entries": ["VerifC14Diff", "VerifC14DiffV1"], "params": {"N": 2, "COLOR": 1}},
+            {"pkg": "cli_root", "entries": ["VerifC14Patch", "VerifC14Errors", "VerifC14Translate", "VerifC14PatchV1"], "params": {"N": 2}},
         ],
         "covers": ["c14.diff.files", "c14.diff.stdin", "c14.diff.outfile", "c14.patch", "c14.errors", "c14.translate.jd2patch", "c14.translate.patch2jd", "c14.translate.jd2merge", "c14.translate.merge2jd", "c14.v1diff.files", "c14.v1diff.stdin", "c14.v1diff.outfile", "c14.v1patch", "c14.setkeys", "c14.setkeys.bad", "c14.gitdriver", "c14.gitdriver.bad", "c14.yaml.diff", "c14.yaml.patch", "c14.yaml.json2yaml", "c14.yaml.yaml2json"],
         "outside": "PARTIAL: both binaries and the top-level binary with -v2=false, JSON input, and YAML input/output under a structural yaml.v2 model (numbers, arrays, objects with keys a,b; the character-level YAML questions are C16's and not applicable); -port and GitHub-action mode are not covered; process start-up, the real flag parser, files and stdio are models in the engine (the native replay runs the real binary)",
@@ -154,14 +156,16 @@ CHECKS = {
             {"pkg": "v2", "entries": ["VerifC08Hunk"], "params": {"N": 2, "RM": 2, "AD": 1}},
             {"pkg": "v2", "entries": ["VerifC08Keyed"], "params": {"N": 2, "IDKINDS": 1}},
             {"pkg": "v2", "entries": ["VerifC08Diff"], "params": {"N": 2}},
+            {"pkg": "v2", "entries": ["VerifC08Members"], "params": {"N": 1}},
         ],
         "thorough": [
             {"pkg": "v2", "entries": ["VerifC08Hunk"], "params": {"N": 3, "RM": 2, "AD": 2}},
             {"pkg": "v2", "entries": ["VerifC08Keyed"], "params": {"N": 3}},
             {"pkg": "v2", "entries": ["VerifC08Diff"], "params": {"N": 2}},
+            {"pkg": "v2", "entries": ["VerifC08Members"], "params": {"N": 1}},
         ],
-        "covers": ["c08.hunk.set", "c08.hunk.multiset", "c08.hunk.nonarray", "c08.keyed", "c08.diff.set", "c08.diff.multiset"],
-        "outside": "more than N members, more than 2 listed removals/additions, members other than numbers (keyed: objects {id,v}), several members matching one key (assumed away), FNV collisions",
+        "covers": ["c08.hunk.set", "c08.hunk.multiset", "c08.hunk.nonarray", "c08.keyed", "c08.diff.set", "c08.diff.multiset", "c08.members.set", "c08.members.multiset"],
+        "outside": "more than N members, more than 2 listed removals/additions, members other than numbers, pairs of numbers and objects holding a pair (keyed: objects {id,v}), several members matching one key (assumed away), FNV collisions",
     },
     "C06": {
         "quick": [
@@ -267,6 +271,7 @@ CHECKS = {
             {"pkg": "v2", "entries": ["VerifC01Nest"], "params": {"N": 2, "OPTS": 0x17}},
             {"pkg": "v2", "entries": ["VerifC01Deep"], "params": {"DEPTH": 7}},
             {"pkg": "v2", "entries": ["VerifC01Deep"], "params": {"DEPTH": 3, "CHAINKINDS": 2}},
+            {"pkg": "v2", "entries": ["VerifC01Seq"], "params": {"N": 3}},
         ],
         "thorough": [
             {"pkg": "v2", "entries": ["VerifC01Flat"], "params": {"N": 3, "CLONE": 1}},
@@ -276,6 +281,8 @@ CHECKS = {
             {"pkg": "v2", "entries": ["VerifC01Nest"], "params": {"N": 2, "OPTS": 0x77, "WRAPS": 4}},
             {"pkg": "v2", "entries": ["VerifC01Deep"], "params": {"DEPTH": 9, "CHAINKINDS": 1}},
             {"pkg": "v2", "entries": ["VerifC01Deep"], "params": {"DEPTH": 5, "CHAINKINDS": 2}},
+            {"pkg": "v2", "entries": ["VerifC01Seq"], "params": {"N": 3, "OPTS": 0x17}},
+            {"pkg": "v2", "entries": ["VerifC01Nest"], "params": {"N": 3, "OPTS": 1, "WRAPS": 1}},
         ],
         "covers": ["c01.flat.none", "c01.flat.set", "c01.flat.multiset", "c01.flat.merge", "c01.flat.set+merge", "c01.flat.multiset+merge",
                    "c01.obj.none", "c01.obj.merge", "c01.keyed.setkeys", "c01.void.none", "c01.mixed.set", "c01.nest.none", "c01.nest.multiset", "c01.deep.none"],
